@@ -124,6 +124,19 @@ func (a *HMACAuth) Verify(r *http.Request, requestPath string, body []byte) erro
 	return ErrUnauthorized
 }
 
+// InheritNonceCache makes a share prev's replay cache, so that nonces accepted
+// before a configuration reload stay rejected after it. A longer tolerance on a
+// extends the remembered windows accordingly.
+func (a *HMACAuth) InheritNonceCache(prev *HMACAuth) {
+	if a == nil || prev == nil || prev == a || prev.nonce == nil {
+		return
+	}
+	if delta := a.Tolerance - prev.Tolerance; delta > 0 {
+		prev.nonce.extend(delta)
+	}
+	a.nonce = prev.nonce
+}
+
 func cloneByteSlices(in [][]byte) [][]byte {
 	out := make([][]byte, 0, len(in))
 	for _, b := range in {
@@ -160,6 +173,14 @@ func (c *nonceCache) setNow(now func() time.Time) {
 	c.mu.Lock()
 	c.now = now
 	c.mu.Unlock()
+}
+
+func (c *nonceCache) extend(by time.Duration) {
+	c.mu.Lock()
+	defer c.mu.Unlock()
+	for k, exp := range c.m {
+		c.m[k] = exp.Add(by)
+	}
 }
 
 func (c *nonceCache) seenOnce(nonce string, expiresAt time.Time) bool {
